@@ -36,25 +36,23 @@ const (
 // This lets us process the zip in one pass, which normally isn't possible with
 // the directory at the end.
 func ZipToTar(r *os.File, w io.Writer) error {
-	size, err := r.Seek(0, io.SeekEnd)
+	// Read through section readers instead of seeking: the upload stream may be
+	// requested again (failover) while a goroutine serving an earlier, abandoned
+	// attempt is still running, and they must not move each other's file offset.
+	info, err := r.Stat()
 	if err != nil {
 		return err
 	}
+	size := info.Size()
 	dirLoc, err := FindDirectory(r, size)
 	if err != nil {
 		return err
 	}
 	tw := tar.NewWriter(w)
-	if _, err := r.Seek(dirLoc, 0); err != nil {
+	if err := tarAddStream(tw, io.NewSectionReader(r, dirLoc, size-dirLoc), TarMemberCD, size-dirLoc); err != nil {
 		return err
 	}
-	if err := tarAddStream(tw, r, TarMemberCD, size-dirLoc); err != nil {
-		return err
-	}
-	if _, err := r.Seek(0, 0); err != nil {
-		return err
-	}
-	if err := tarAddStream(tw, r, TarMemberZip, size); err != nil {
+	if err := tarAddStream(tw, io.NewSectionReader(r, 0, size), TarMemberZip, size); err != nil {
 		return err
 	}
 	return tw.Close()
